@@ -205,12 +205,35 @@ func runUDPCloseRace(idx int, reads int, size int) (*udpTrace, error) {
 		Scen: map[string]any{"schedule": "closerace", "reads": reads, "size": size, "gate_reached": !infeasible, "placed": placed}, Hist: rec.Snapshot()}, nil
 }
 
+// runUDPMultiClose: n associations, each closed by 8 goroutines at once plus the server's own deferred Close.
+func runUDPMultiClose(n int) error {
+	rec := vh.NewRecorder(nil)
+	pc := vh.NewFakePC(rec)
+	srv, cancel, err := udpServer(map[string]any{"handler": "verif_h", "k": "closers", "n": 8})
+	if err != nil {
+		return err
+	}
+	defer cancel()
+	go layer4.VerifServePacket(srv, pc)
+	for i := 0; i < n; i++ {
+		pc.Inject(1+i%20000, i+1, 16)
+		if i%2000 == 1999 {
+			time.Sleep(5 * time.Millisecond)
+		}
+	}
+	time.Sleep(100 * time.Millisecond)
+	pc.Close()
+	time.Sleep(5 * time.Millisecond)
+	return nil
+}
+
 func init() {
 	register("udp-gated", "gate-scheduled interleavings of the real servePacket loop (C09)", func(args []string) error {
 		fs := flag.NewFlagSet("udp-gated", flag.ExitOnError)
 		out := fs.String("out", "", "traces (NDJSON for L4UdpTrace)")
 		sum := fs.String("summary", "", "summary JSON")
 		reps := fs.Int("reps", 30, "repetitions")
+		closes := fs.Int("closes", 20000, "associations in the concurrent-Close stress")
 		fs.Parse(args)
 		lw, err := vh.NewLineWriter(*out)
 		if err != nil {
@@ -232,10 +255,16 @@ func init() {
 				samples = append(samples, tr)
 			}
 		}
+		// concurrent Close calls on one virtual connection (no gate can sit inside Close's critical section,
+		// so this one is brute force: many associations, 8 closers each)
+		fmt.Printf("SCENARIO multiclose %d\n", *closes)
+		if err := runUDPMultiClose(*closes); err != nil {
+			return err
+		}
 		if err := lw.Close(); err != nil {
 			return err
 		}
-		return writeJSON(*sum, map[string]any{"runs": *reps, "infeasible": infeasible, "samples": samples})
+		return writeJSON(*sum, map[string]any{"runs": *reps, "infeasible": infeasible, "samples": samples, "multiclose_associations": *closes})
 	})
 
 	register("udp-run", "free-running datagram bursts through the real servePacket loop (C09); a crash kills this process", func(args []string) error {
